@@ -50,6 +50,13 @@ type tScenario struct {
 	init    time.Duration
 	max     time.Duration
 	deflt   bool // keep the library's default back-off parameters
+	// Cancel-inside-the-back-off-window scenarios: the supervisor context is cancelled `cancelDelay` after the
+	// `cancelNth`-th exit of `cancelAfter` was logged (no waiting for the tree to settle), and the trace keeps
+	// recording until `observe` after the cancellation (longer than the longest back-off that can be pending).
+	cancelAfter string
+	cancelNth   int
+	cancelDelay time.Duration
+	observe     time.Duration
 }
 
 type tEvent struct {
@@ -365,6 +372,9 @@ func runScenario(sc *tScenario, deadline time.Duration) *tRun {
 	r.sup.mu.Unlock()
 	r.mu.Unlock()
 
+	if sc.cancelAfter != "" {
+		return r.finishInWindow(cancel, deadline)
+	}
 	exp := r.expected()
 	dl := time.Now().Add(deadline)
 	ok, why := false, ""
@@ -389,12 +399,20 @@ func runScenario(sc *tScenario, deadline time.Duration) *tRun {
 	} else {
 		r.log("settled", nil, "ok=0 why="+why)
 	}
+	r.stopAndWatch(cancel, deadline, 60*time.Millisecond)
+	return r
+}
+
+// stopAndWatch cancels the supervisor context, waits for everything to stop, and keeps recording for `watch`
+// after a quiet period: an `enter` logged after `quiesced` is a start after the stop.
+func (r *tRun) stopAndWatch(cancel func(), deadline, watch time.Duration) {
 	r.mu.Lock()
 	r.logLocked("cancelreq", nil, "")
 	cancel()
 	r.mu.Unlock()
+	t0 := time.Now()
 	// "cancelling the supervisor's context stops every service": everything running now must return
-	dl = time.Now().Add(deadline)
+	dl := time.Now().Add(deadline)
 	for r.liveCount() > 0 && time.Now().Before(dl) {
 		time.Sleep(time.Millisecond)
 	}
@@ -403,11 +421,43 @@ func runScenario(sc *tScenario, deadline time.Duration) *tRun {
 	} else {
 		r.log("stopped", nil, "ok=1 live=0")
 	}
-	// "... without further restarts": after a quiet period nothing may start any more
+	// "... without further restarts": after a quiet period nothing may start any more.  (Every scenario has a root
+	// that only leaves on its context: once it has left, the processor has run processKill and returned, so the
+	// quiet period only has to cover a goroutine that processSchedule had already started but that has not logged yet.)
 	time.Sleep(60 * time.Millisecond)
 	r.log("quiesced", nil, "")
-	time.Sleep(60 * time.Millisecond)
+	if rest := watch - time.Since(t0); rest > 60*time.Millisecond {
+		time.Sleep(rest)
+	} else {
+		time.Sleep(60 * time.Millisecond)
+	}
 	r.log("fin", nil, "")
+}
+
+func (r *tRun) exitsOf(dn string) int {
+	r.mu.Lock()
+	defer r.mu.Unlock()
+	n := 0
+	for _, in := range r.insts {
+		if in.dn == dn && in.exited {
+			n++
+		}
+	}
+	return n
+}
+
+// finishInWindow: cancel the supervisor context while failed services sit in their restart back-off (or while
+// the subtree of a failed service is still exiting), then watch for longer than any pending back-off.
+func (r *tRun) finishInWindow(cancel func(), deadline time.Duration) *tRun {
+	sc := r.sc
+	r.settledOK = true
+	dl := time.Now().Add(deadline)
+	for r.exitsOf(sc.cancelAfter) < sc.cancelNth && time.Now().Before(dl) {
+		time.Sleep(200 * time.Microsecond)
+	}
+	r.log("window", nil, fmt.Sprintf("after=%s nth=%d delay_us=%d seen=%d", sc.cancelAfter, sc.cancelNth, sc.cancelDelay.Microseconds(), r.exitsOf(sc.cancelAfter)))
+	time.Sleep(sc.cancelDelay)
+	r.stopAndWatch(cancel, deadline, sc.observe)
 	return r
 }
 
@@ -612,6 +662,78 @@ func randScenario(r *rand.Rand, idx int) *tScenario {
 	return sc
 }
 
+// windowScenarios: the supervisor context is cancelled at a PRNG-chosen point INSIDE the restart back-off window of
+// one or several failed services - right after the failure, mid-window, just before its earliest end - also nested
+// (a parent waiting for / sitting in its back-off while a child subtree or a group sibling is still exiting).
+// Back-off here is 200 ms +-50 % for a first failure (100..300 ms), 150..450 ms for a second one in a row.
+func windowScenarios(r *rand.Rand, n int) []*tScenario {
+	ms := time.Millisecond
+	between := func(lo, hi int) time.Duration { return time.Duration(lo+r.Intn(hi-lo+1)) * ms }
+	leafFails := func(how string) []tScript {
+		return []tScript{{healthy: true, fail: how, after: 2 * ms}, stableLeaf()}
+	}
+	var out []*tScenario
+	for i := 0; i < n; i++ {
+		sc := &tScenario{init: 200 * ms, max: 400 * ms, cancelNth: 1, observe: 650 * ms}
+		switch i % 9 {
+		case 0:
+			sc.name, sc.cancelAfter, sc.cancelDelay = "cancel-in-backoff-early", "root.a", between(3, 12)
+			sc.scripts = map[string][]tScript{"root": {{groups: [][]string{{"a"}}, healthy: true}}, "root.a": leafFails("other")}
+		case 1:
+			sc.name, sc.cancelAfter, sc.cancelDelay = "cancel-in-backoff-mid", "root.a", between(25, 75)
+			sc.scripts = map[string][]tScript{"root": {{groups: [][]string{{"a"}}, healthy: true}}, "root.a": leafFails("nil")}
+		case 2:
+			sc.name, sc.cancelAfter, sc.cancelDelay = "cancel-in-backoff-late", "root.a", between(80, 97)
+			sc.scripts = map[string][]tScript{"root": {{groups: [][]string{{"a"}}, healthy: true}}, "root.a": leafFails("panic")}
+		case 3:
+			sc.name, sc.cancelAfter, sc.cancelDelay = "cancel-three-in-backoff", "root.c", between(8, 70)
+			sc.scripts = map[string][]tScript{
+				"root":   {{groups: [][]string{{"a"}, {"b"}, {"c"}}, healthy: true}},
+				"root.a": leafFails("nil"), "root.b": leafFails("panic"),
+				"root.c": {{healthy: true, fail: "other", after: 4 * ms}, stableLeaf()},
+			}
+		case 4:
+			// the parent has failed; its children are still exiting (exit latency), then it is reset and sleeps
+			sc.name, sc.cancelAfter, sc.cancelDelay = "cancel-parent-backoff-children-exiting", "root.p", between(4, 95)
+			sc.scripts = map[string][]tScript{
+				"root":       {{groups: [][]string{{"p"}}, healthy: true}},
+				"root.p":     {{groups: [][]string{{"x", "y"}}, healthy: true, fail: "other", after: 4 * ms}, {groups: [][]string{{"x", "y"}}, healthy: true}},
+				"root.p.x":   {{healthy: true, linger: between(5, 40)}},
+				"root.p.y":   {{groups: [][]string{{"l"}}, healthy: true, linger: between(1, 15)}},
+				"root.p.y.l": {{healthy: true, linger: between(1, 10)}},
+			}
+		case 5:
+			// a leaf in back-off while its cancelled group sibling is still exiting
+			sc.name, sc.cancelAfter, sc.cancelDelay = "cancel-backoff-sibling-exiting", "root.a", between(8, 45)
+			sc.scripts = map[string][]tScript{
+				"root":   {{groups: [][]string{{"a", "b"}}, healthy: true}},
+				"root.a": leafFails("other"),
+				"root.b": {{healthy: true, linger: 50 * ms}},
+			}
+		case 6:
+			sc.name, sc.cancelAfter, sc.cancelDelay = "cancel-root-in-backoff", "root", between(8, 80)
+			sc.scripts = map[string][]tScript{
+				"root":   {{groups: [][]string{{"a"}}, healthy: true, fail: "other", after: 4 * ms}, {groups: [][]string{{"a"}}, healthy: true}},
+				"root.a": {{healthy: true, linger: between(0, 5)}},
+			}
+		case 7:
+			// second failure in a row without a Healthy signal in between: the window is 150..450 ms
+			sc.name, sc.cancelAfter, sc.cancelNth, sc.cancelDelay = "cancel-in-second-backoff", "root.a", 2, between(10, 140)
+			sc.scripts = map[string][]tScript{
+				"root":   {{groups: [][]string{{"a"}}, healthy: true}},
+				"root.a": {{fail: "other", after: ms}, {fail: "nil", after: ms}, stableLeaf()},
+			}
+		case 8:
+			// the library's own parameters: 250..750 ms for a first failure
+			sc.name, sc.cancelAfter, sc.cancelDelay = "cancel-in-default-backoff", "root.a", between(10, 230)
+			sc.deflt, sc.observe = true, 950*ms
+			sc.scripts = map[string][]tScript{"root": {{groups: [][]string{{"a"}}, healthy: true}}, "root.a": leafFails("other")}
+		}
+		out = append(out, sc)
+	}
+	return out
+}
+
 func TestVerifSupervisorTrace(t *testing.T) {
 	out := os.Getenv("VERIF_OUT")
 	if out == "" {
@@ -639,6 +761,11 @@ func TestVerifSupervisorTrace(t *testing.T) {
 		"root":   {{groups: [][]string{{"a"}}, healthy: true}},
 		"root.a": {{healthy: true, fail: "other", after: time.Millisecond}, stableLeaf()},
 	}})
+	nWindow := 9
+	if os.Getenv("VERIF_TIER") == "thorough" {
+		nWindow = 54
+	}
+	scs = append(scs, windowScenarios(rnd, nWindow)...)
 	f, err := os.Create(filepath.Join(out, "supervisor_trace.cases"))
 	if err != nil {
 		t.Fatal(err)
